@@ -35,8 +35,10 @@ impl Flag {
     pub fn done(&self, guard: &Guard) {
         if !guard.panicking && thread::panicking() {
             let is_canceled = if crate::coroutine_impl::is_coroutine() {
+                // a pending cancel request is not enough: the panic in flight
+                // must be the cancel panic
                 let cancel = crate::coroutine_impl::current_cancel_data();
-                cancel.is_canceled()
+                cancel.is_cancel_unwinding()
             } else {
                 false
             };
